@@ -1,0 +1,24 @@
+//go:build verif
+
+// Contracts for the VC generator in /verif (comment-only; compiled only with
+// the build tag verif, and even then it adds no code).
+
+package gen
+
+//@ unit number
+
+//@ func (*Number).Reset
+//@   modifies n.I, n.Frac, n.Div, n.Exp, n.Neg, n.NegExp, n.BigBuf
+//@   ensures [C02 C07 reset] n.I == 0 && n.Frac == 0 && n.Div == 1 && n.Exp == 0 && !n.Neg && !n.NegExp && len(n.BigBuf) == 0
+
+//@ func (*Number).FillBig
+//@   modifies n.BigBuf, heap(n.BigBuf)
+//@   ensures [C02] len(n.BigBuf) > old(len(n.BigBuf))
+//@   ensures [C07 own] arrid(n.BigBuf) == old(arrid(n.BigBuf)) || fresh(n.BigBuf)
+
+//@ func (*Number).AddDigit
+//@   requires '0' <= b && b <= '9'
+//@   modifies n.I, n.BigBuf, heap(n.BigBuf)
+//@   ensures [C02 exact] len(n.BigBuf) == 0 ==> n.I == old(n.I)*10 + (b - '0') && n.I <= MaxInt64
+//@   ensures [C02 nolose] old(len(n.BigBuf)) > 0 ==> len(n.BigBuf) == old(len(n.BigBuf)) + 1
+//@   ensures [C02 int] old(len(n.BigBuf)) == 0 && old(n.I)*10 + (b - '0') <= MaxInt64 ==> len(n.BigBuf) == 0
